@@ -214,6 +214,10 @@ def run(ck, P):
         xs = rules.Expander(f, stable=False).at(ev, a_)
         okc = xs.startswith("m_mem_ref(") or any(xs.startswith(fr + "(") for fr in FRESH) or \
             (sa_["k"] == "var" and sa_.get("vk") == "param" and f.name in CONSUMERS)
+        if not okc and sa_["k"] == "var":
+            # a local with several definitions (NULL first, the fresh object under a condition): every non-NULL value it can hold is fresh/counted
+            vs_ = {x for x in rules.value_sources(f, sa_["name"]) if x not in ("NULL", "0")}
+            okc = bool(vs_) and all(x.startswith("m_mem_ref(") or any(x.startswith(fr + "(") for fr in FRESH) for x in vs_)
         ck.ob("C04.2-REFPTR-STORE", f.site("%s(%s, %s)" % (ev.callee, _tail(S(ev.args[0])), S(a_))), okc,
               "'%s' goes into %s %s" % (S(a_), S(ev.args[0]), "with a reference of its own / as a fresh object" if okc else
                                         "as a borrowed pointer: the container releases it when cleared, so the object loses a reference it never received "
